@@ -39,7 +39,7 @@ UNITS = {"scsi": (3, 15), "sata": (3, 29), "ide": (1, 1), "nvme": (3, 14)}
 
 
 def budget(tier):
-    return 4000 if tier == "quick" else 100000
+    return 16000 if tier == "quick" else 100000
 
 
 @st.composite
